@@ -73,6 +73,8 @@ func (r *binaryReaderMmap) Bytes(b []byte, n, off int64) ([]byte, error) {
 		return nil, errors.New("mmap: closed")
 	} else if off < 0 || n < 0 {
 		return nil, fmt.Errorf("mmap: invalid range %d--%d", off, off+n)
+	} else if n == 0 {
+		return nil, nil
 	} else if int64(len(r.data)) <= off {
 		return nil, io.EOF
 	} else if int64(len(r.data))-off < n {
